@@ -4,6 +4,8 @@ what was run. Detection results are (re)computed by tools/eval_seeds.py."""
 import json, os, shutil, glob, re, sys
 ROUND = int(sys.argv[1]) if len(sys.argv) > 1 else 1
 for d in sorted(glob.glob('/tmp/seed/C*/_seed/change*')):
+    if not os.path.exists(os.path.join(d, 'meta.json')) or not os.path.exists(f'/tmp/seed/confirm_{d.split("/")[3]}.out'):
+        continue        # the sub-agent has not finished (or the change has not been confirmed yet)
     prop = d.split('/')[3]
     k = d[-1]
     sid = f'{prop}-{int(k) + 2 * (ROUND - 1)}'
